@@ -15,7 +15,8 @@ Definition EFUEL : N := 99.
 (* ---- lzss_decompress(system, input, output, input_buffer_size, mode) ---- *)
 Record ist := { iwin : wtree; ipos : N; ibuf : list byte }.
 Section Lzss.
-Variables (inh outh : handle) (bufsize : Z) (window : ptr).
+Variables (junk : byte) (inh outh : handle) (bufsize : Z) (window : ptr).
+(* [junk]: what a window cell holds before the decoder writes it (the allocator's leftovers) *)
 Definition stop (e : N) : prog N := do! _ <- call1 (CFree (Some window)); Ret e.   (* every exit frees the window *)
 Definition getbyte (s : ist) (k : ist -> byte -> prog N) : prog N :=
   match ibuf s with
@@ -32,25 +33,27 @@ Definition putbyte (s : ist) (b : byte) (k : ist -> prog N) : prog N :=
   if Z.eqb w 1 then k {| iwin := wset W (iwin s) (ipos s) b; ipos := mask (ipos s + 1); ibuf := ibuf s |}
   else stop MSPACK_ERR_WRITE.
 Fixpoint copy (n : nat) (s : ist) (mpos : N) (k : ist -> prog N) : prog N :=
-  match n with O => k s | S n' => putbyte s (wget W (iwin s) mpos LZSS_WINDOW_FILL) (fun s' => copy n' s' (mask (mpos + 1)) k) end.
+  match n with O => k s | S n' => putbyte s (wget W (iwin s) mpos junk) (fun s' => copy n' s' (mask (mpos + 1)) k) end.
 Fixpoint items (n : nat) (c bit : N) (s : ist) (k : ist -> prog N) : prog N :=
   match n with O => k s | S n' =>
     if N.testbit c bit then getbyte s (fun s1 b => putbyte s1 b (fun s2 => items n' c (bit + 1) s2 k))
     else getbyte s (fun s1 m1 => getbyte s1 (fun s2 m2 =>
-           copy (N.to_nat (N.land m2 15 + 3)) s2 (N.lor m1 (N.shiftl (N.land m2 240) 4)) (fun s3 => items n' c (bit + 1) s3 k)))
+           copy (N.to_nat (N.land m2 15 + 3)) s2 (mask (N.lor m1 (N.shiftl (N.land m2 240) 4)))   (* mask: identity on bytes (mpos is 12 bits in C) *)
+                (fun s3 => items n' c (bit + 1) s3 k)))
   end.
 Fixpoint loop (fuel : nat) (inv : N) (s : ist) : prog N :=
   match fuel with O => stop EFUEL   (* out of fuel is not a C behaviour; the model releases the window so that every statement below is unconditional *)
   | S f =>
     getbyte s (fun s1 c => items 8 (N.lxor c inv) 0 s1 (fun s2 => loop f inv s2)) end.
 End Lzss.
-Definition lzss_decompress (fuel : nat) (inh outh : handle) (bufsize : Z) (mode : N) : prog N :=
+(* memset(window, LZSS_WINDOW_FILL, LZSS_WINDOW_SIZE) *)
+Definition lzss_decompress (junk : byte) (fuel : nat) (inh outh : handle) (bufsize : Z) (mode : N) : prog N :=
   do! w <- call1 (CAlloc (Z.of_N LZSS_WINDOW_SIZE + bufsize));
   match w with
   | None => Ret MSPACK_ERR_NOMEMORY
   | Some window =>
-    loop inh outh bufsize window fuel (if mode =? LZSS_MODE_MSHELP then 255 else 0)
-         {| iwin := Emp; ipos := LZSS_WINDOW_SIZE - (if mode =? LZSS_MODE_QBASIC then 18 else 16); ibuf := [] |}
+    loop junk inh outh bufsize window fuel (if mode =? LZSS_MODE_MSHELP then 255 else 0)
+         {| iwin := full_tree W LZSS_WINDOW_FILL; ipos := LZSS_WINDOW_SIZE - (if mode =? LZSS_MODE_QBASIC then 18 else 16); ibuf := [] |}
   end.
 
 (* ---- szddd.c ---- *)
@@ -95,21 +98,21 @@ Definition szdd_open (s : self) (name : fname) : prog (option hdr * self) :=
 Definition szdd_close (s : self) (h : hdr) : prog self :=
   do! _ <- call1 (CClose (hfh h)); do! _ <- call1 (CFree (Some (hptr h))); Ret {| sptr := sptr s; serr := MSPACK_ERR_OK |}.
 Definition SZDD_INPUT_SIZE : Z := 2048.
-Definition szdd_extract (fuel : nat) (s : self) (h : hdr) (out : fname) : prog (N * self) :=
+Definition szdd_extract (junk : byte) (fuel : nat) (s : self) (h : hdr) (out : fname) : prog (N * self) :=
   do! ok <- call1 (CSeek (hfh h) (if hformat h =? 0 then 14 else 12) SEEK_START);
   if negb ok then Ret (MSPACK_ERR_SEEK, {| sptr := sptr s; serr := MSPACK_ERR_SEEK |}) else
   do! o <- call1 (COpen out MODE_WRITE);
   match o with
   | None => Ret (MSPACK_ERR_OPEN, {| sptr := sptr s; serr := MSPACK_ERR_OPEN |})
   | Some oh =>
-    do! e <- lzss_decompress fuel (hfh h) oh SZDD_INPUT_SIZE (if hformat h =? 0 then LZSS_MODE_EXPAND else LZSS_MODE_QBASIC);
+    do! e <- lzss_decompress junk fuel (hfh h) oh SZDD_INPUT_SIZE (if hformat h =? 0 then LZSS_MODE_EXPAND else LZSS_MODE_QBASIC);
     do! _ <- call1 (CClose oh); Ret (e, {| sptr := sptr s; serr := e |})
   end.
-Definition szdd_decompress (fuel : nat) (s : self) (inp out : fname) : prog (N * self) :=
+Definition szdd_decompress (junk : byte) (fuel : nat) (s : self) (inp out : fname) : prog (N * self) :=
   do! r <- szdd_open s inp; let '(h, s1) := r in
   match h with
   | None => Ret (serr s1, s1)
-  | Some hd => do! r2 <- szdd_extract fuel s1 hd out; let '(e, s2) := r2 in
+  | Some hd => do! r2 <- szdd_extract junk fuel s1 hd out; let '(e, s2) := r2 in
                do! s3 <- szdd_close s2 hd; Ret (e, {| sptr := sptr s3; serr := e |})
   end.
 
@@ -120,15 +123,15 @@ Definition szdd_new : prog (option self) :=
 Definition szdd_destroy (s : self) : prog unit := call1 (CFree (Some (sptr s))).
 
 (* script A: new; decompress(in0 -> out0); destroy.   result: (status, last_error) *)
-Definition script_decompress (fuel : nat) : prog (N * N) :=
+Definition script_decompress (junk : byte) (fuel : nat) : prog (N * N) :=
   do! so <- szdd_new;
   match so with
   | None => Ret (98, 98)
-  | Some s => do! r <- szdd_decompress fuel s (FIn 0) (FOut 0); let '(e, s') := r in
+  | Some s => do! r <- szdd_decompress junk fuel s (FIn 0) (FOut 0); let '(e, s') := r in
               do! _ <- szdd_destroy s'; Ret (e, serr s')
   end.
 (* script B: new; open(in0); extract(out0) twice if open succeeded; close; destroy *)
-Definition script_open_extract (fuel : nat) : prog (list N) :=
+Definition script_open_extract (junk : byte) (fuel : nat) : prog (list N) :=
   do! so <- szdd_new;
   match so with
   | None => Ret [98]
@@ -137,8 +140,8 @@ Definition script_open_extract (fuel : nat) : prog (list N) :=
     match h with
     | None => do! _ <- szdd_destroy s1; Ret [serr s1]
     | Some hd =>
-      do! r1 <- szdd_extract fuel s1 hd (FOut 0); let '(e1, s2) := r1 in
-      do! r2 <- szdd_extract fuel s2 hd (FOut 1); let '(e2, s3) := r2 in
+      do! r1 <- szdd_extract junk fuel s1 hd (FOut 0); let '(e1, s2) := r1 in
+      do! r2 <- szdd_extract junk fuel s2 hd (FOut 1); let '(e2, s3) := r2 in
       do! s4 <- szdd_close s3 hd;
       do! _ <- szdd_destroy s4; Ret [0; e1; e2; serr s4]
     end
@@ -148,9 +151,9 @@ Definition script_open_extract (fuel : nat) : prog (list N) :=
 From MSP Require Import L2.Host.
 Definition run_script_decompress (input : list byte) (fl : list (N * N * N)) : N * N * list (list N) * list (list byte) :=
   let h0 := host0 [input] 2 (map (fun t => (kind_of (fst (fst t)), snd (fst t), snd t)) fl) in
-  let '((e, le), h) := exec h0 (script_decompress (S (length input))) in
+  let '((e, le), h) := exec h0 (script_decompress 170 (S (length input))) in
   (e, le, rev_append (trace h) [], outfiles h).
 Definition run_script_open_extract (input : list byte) (fl : list (N * N * N)) : list N * list (list N) * list (list byte) :=
   let h0 := host0 [input] 2 (map (fun t => (kind_of (fst (fst t)), snd (fst t), snd t)) fl) in
-  let '(r, h) := exec h0 (script_open_extract (S (length input))) in
+  let '(r, h) := exec h0 (script_open_extract 170 (S (length input))) in
   (r, rev_append (trace h) [], outfiles h).
